@@ -142,6 +142,8 @@ class Ledger:
                         self.stranded.add(rid)
                     elif rid not in self.stranded:
                         out.append(('C03', 'picked_up_request_vanished', {'request': rid, 'vehicle': vid, 'activity': type(v.vehicle_state).__name__ if v else None}))
+                        # the same fact read as C19: the trip is over (the vehicle is in another activity, not out of service) and no drop-off was reported
+                        out.append(('C19', 'trip_ended_without_dropoff_event', {'request': rid, 'vehicle': vid, 'activity': type(v.vehicle_state).__name__ if v else None}))
         for rid in sim.requests:
             if rid not in self.admitted:
                 out.append(('C03', 'request_without_add_event', {'request': rid}))
